@@ -27,7 +27,7 @@ def strat():
 
     @st.composite
     def page(draw):
-        kind = draw(st.sampled_from(["grid", "columns", "stairs", "nested", "identical", "degenerate", "polygons", "random", "few"]))
+        kind = draw(st.sampled_from(["grid", "columns", "stairs", "nested", "identical", "degenerate", "polygons", "random", "few", "newspaper"]))
         regs = []
         if kind == "grid":
             nx, ny = draw(st.integers(1, 4)), draw(st.integers(1, 3))
@@ -68,13 +68,21 @@ def strat():
             for i in range(draw(st.integers(1, 8))):
                 pts = draw(st.lists(st.tuples(st.integers(0, 3000), st.integers(0, 3000)), min_size=3, max_size=7))
                 regs.append([list(p) for p in pts])
+        elif kind == "newspaper":
+            # dozens of regions: a grid of articles with irregular heights
+            for i in range(draw(st.integers(4, 7))):
+                y = 100
+                for j in range(draw(st.integers(4, 8))):
+                    h = draw(st.integers(60, 300))
+                    regs.append(box(100 + i * 420, y, draw(st.integers(300, 410)), h))
+                    y += h + draw(st.integers(-10, 40))
         elif kind == "few":
             for i in range(draw(st.integers(0, 1))):
                 regs.append(box(10, 10, 100, 50))
         else:
             for i in range(draw(st.integers(2, 10))):
                 regs.append(box(draw(st.integers(0, 3000)), draw(st.integers(0, 3000)), draw(st.integers(1, 1200)), draw(st.integers(1, 900))))
-        regs = regs[:10]
+        regs = regs[:10] if kind != "newspaper" else regs[:60]
         slant = draw(st.sampled_from([0.0, 0.0, 0.01, -0.03, 0.08]))
         use_float = draw(st.booleans())
         out = []
